@@ -35,7 +35,7 @@ CHECKS = {
     "C16": {"level": E, "gen_binary": True, "units": [go("TestC16Constants", 1, 1, netns=False, shards={"quick": 1, "thorough": 1}), go("TestC16Gen", 960, 6000, netns=False), go("TestC16", 5600, 120000, fact=r"do(es)? not conform to the P4Info|violate the P4Info")]},
     "C15": {"level": F, "units": [go("TestC15Enum", 16, 16), go("TestC15Multi", 2400, 100000)]},
     "C20": {"level": E, "units": [{"kind": "py", "test": "c20", "argv": ["py/c20/test_c20.py"]}], "py_replay": ["py/c20/test_c20.py", "--replay"]},
-    "C12": {"level": F, "units": [go("TestC12Enum", 16, 16), go("TestC12HB", 160, 5000), go("TestC12Setup", 240, 6000), go("TestC12Init", 96, 3000)]},
+    "C12": {"level": F, "units": [go("TestC12Enum", 16, 16), go("TestC12HB", 320, 5000, confirm_tries=10), go("TestC12Setup", 240, 6000), go("TestC12Init", 96, 3000)]},
     "C10": {"level": E, "units": [go("TestC10", 320, 8000, race=True, confirm=False)], "replay_race": True},
     "C11": {"level": E, "units": [go("TestC11", 320, 8000, race=True, confirm=False), go("TestC11Choose", 160, 3000, race=True, confirm=False)], "replay_race": True},
     "C02": {"level": E, "units": [go("TestC02", 4800, 100000), go("TestC02Conc", 320, 6000, race=True, confirm=False)], "replay_race": False},
